@@ -46,18 +46,35 @@ def assemble_rtf(
     # Remove last line if it contains only '}' or remove the last '}' char
     # r2rtf simply removes the last line: end[-n] <- end[-n] - 1
 
-    # Helper to find start index based on fcharset
-    def find_start_index(lines):
-        last_idx = 0
-        found = False
-        for i, line in enumerate(lines):
-            if "fcharset" in line:
-                last_idx = i
-                found = True
-
-        if found:
-            return last_idx + 2
-        return 0
+    # Helper to drop the document prologue ({\\rtf1 ..., \\deff ..., font table)
+    # of all but the first file. The end of the font table is found by matching
+    # its braces, not by searching for the word "fcharset" (which may also occur
+    # in the text of the document) and not by assuming that the closing brace
+    # has a line of its own (figure documents continue with the color table on
+    # the same line).
+    def strip_prologue(lines):
+        text = "".join(lines)
+        start = text.find("{\\fonttbl")
+        if start < 0:
+            return lines
+        depth = 0
+        i = start
+        while i < len(text):
+            ch = text[i]
+            if ch == "\\":
+                i += 2  # control symbol / escaped brace
+                continue
+            if ch == "{":
+                depth += 1
+            elif ch == "}":
+                depth -= 1
+                if depth == 0:
+                    break
+            i += 1
+        rest = text[i + 1 :]
+        if rest.startswith("\n"):
+            rest = rest[1:]
+        return rest.splitlines(keepends=True)
 
     new_page_cmd = r"\page" + "\n"
 
@@ -67,7 +84,7 @@ def assemble_rtf(
         start_idx = 0
         if i > 0:
             # For subsequent files, skip header
-            start_idx = find_start_index(lines)
+            lines = strip_prologue(lines)
 
         end_idx = len(lines)
         if i < len(rtf_contents) - 1 and lines[-1].strip() == "}":
